@@ -219,29 +219,29 @@ type serveCase struct {
 	browse, pass, can bool
 	// the configured value is a placeholder ({http.vars.…}) that expands to the field's value
 	phRoot, phHide, phIndex bool
-	pre      [3]bool  // precompressed gzip, br, zstd configured
-	accepted []string // what encode.AcceptedEncodings shall return, in order
-	query    string    // r.URL.RawQuery
-	etagExt  []string  // etag_file_extensions
-	via          byte // 's' struct literal (default), 'j' JSON, 'c' Caddyfile tokens
-	indexOmitted bool // index_names not configured at all: Provision's default applies
-	fault    faultSpec // only inside a `pair` case: how this request's listing fails to be delivered
-	path, orig        string
-	tree              map[string]kind
+	pre                     [3]bool   // precompressed gzip, br, zstd configured
+	accepted                []string  // what encode.AcceptedEncodings shall return, in order
+	query                   string    // r.URL.RawQuery
+	etagExt                 []string  // etag_file_extensions
+	via                     byte      // 's' struct literal (default), 'j' JSON, 'c' Caddyfile tokens
+	indexOmitted            bool      // index_names not configured at all: Provision's default applies
+	fault                   faultSpec // only inside a `pair` case: how this request's listing fails to be delivered
+	path, orig              string
+	tree                    map[string]kind
 }
 
 type serveObs struct {
-	outcome  string // canonical outcome
-	status   int
-	nextHit  bool
-	body     string
-	listing  []string // names as listed (JSON), nil if not a listing
-	listDir  string   // name of the directory handle that was listed
-	fileName string   // name of the file handle that was read
-	sidecarEnc string // Content-Encoding of a served precompressed sidecar
-	location string   // Location header of a redirect
-	etagName string   // name of the etag file whose content became the Etag header
-	fs       *memFS
+	outcome    string // canonical outcome
+	status     int
+	nextHit    bool
+	body       string
+	listing    []string // names as listed (JSON), nil if not a listing
+	listDir    string   // name of the directory handle that was listed
+	fileName   string   // name of the file handle that was read
+	sidecarEnc string   // Content-Encoding of a served precompressed sidecar
+	location   string   // Location header of a redirect
+	etagName   string   // name of the etag file whose content became the Etag header
+	fs         *memFS
 }
 
 // faultSpec: a listing that is rendered but not (completely) delivered.
@@ -294,6 +294,7 @@ func (prop) Finish(*core.Session) {
 	if tplDir != "" {
 		os.RemoveAll(tplDir)
 	}
+	siteCleanup()
 }
 
 func newRequest(orig, cur string, query ...string) (*http.Request, *httptest.ResponseRecorder) {
@@ -551,37 +552,7 @@ func runServe(c serveCase) (serveObs, error) {
 			o.outcome += " " + core.Hex(o.location)
 		}
 	case w.Code == 200 && strings.HasPrefix(w.Header().Get("Content-Type"), "application/json; charset=utf-8") && len(m.readDir) > 0:
-		var items []struct {
-			Name string `json:"name"`
-		}
-		if e := json.Unmarshal(w.Body.Bytes(), &items); e != nil {
-			o.outcome = "listing-unparsable"
-			break
-		}
-		listed := map[string]bool{}
-		for _, it := range items {
-			listed[it.Name] = true
-		}
-		// canonical order: the directory's own (sorted) entry order
-		_, abs, _ := m.lookup(o.listDir)
-		o.listing = []string{}
-		for _, e := range m.children(abs) {
-			n := e.name
-			if e.isDir {
-				n += "/"
-			}
-			if listed[n] {
-				o.listing = append(o.listing, n)
-				delete(listed, n)
-			}
-		}
-		var extra []string
-		for n := range listed { // names that are not entries of the directory at all
-			extra = append(extra, n)
-		}
-		sort.Strings(extra)
-		o.listing = append(o.listing, extra...)
-		o.outcome = "listing " + core.Hex(o.listDir) + " " + showList(o.listing)
+		o.outcome = listingOutcome(&o, w.Body.Bytes())
 	case w.Code == 200 && strings.HasPrefix(o.body, "FILE:") && len(m.readFile) > 0:
 		id := strings.TrimSuffix(strings.TrimPrefix(o.body, "FILE:"), ":END\n")
 		if ce := w.Header().Get("Content-Encoding"); ce != "" {
@@ -830,6 +801,41 @@ func clip(s string) string {
 	return s
 }
 
+// listingOutcome parses a JSON listing into the canonical outcome (names in the directory's own order).
+func listingOutcome(o *serveObs, raw []byte) string {
+	m := o.fs
+	var items []struct {
+		Name string `json:"name"`
+	}
+	if e := json.Unmarshal(raw, &items); e != nil {
+		return "listing-unparsable"
+	}
+	listed := map[string]bool{}
+	for _, it := range items {
+		listed[it.Name] = true
+	}
+	// canonical order: the directory's own (sorted) entry order
+	_, abs, _ := m.lookup(o.listDir)
+	o.listing = []string{}
+	for _, e := range m.children(abs) {
+		n := e.name
+		if e.isDir {
+			n += "/"
+		}
+		if listed[n] {
+			o.listing = append(o.listing, n)
+			delete(listed, n)
+		}
+	}
+	var extra []string
+	for n := range listed { // names that are not entries of the directory at all
+		extra = append(extra, n)
+	}
+	sort.Strings(extra)
+	o.listing = append(o.listing, extra...)
+	return "listing " + core.Hex(o.listDir) + " " + showList(o.listing)
+}
+
 func bad() core.Outcome { return core.Outcome{Impl: "bad-op", Tags: []string{"bad-op", "trivial"}} }
 
 func (prop) Run(line string) core.Outcome {
@@ -909,6 +915,8 @@ func (prop) Run(line string) core.Outcome {
 		return o
 	case "pair":
 		return runPair(f)
+	case "site":
+		return runSite(f)
 	case "matchfile":
 		if len(f) != 7 {
 			return bad()
